@@ -5,7 +5,7 @@ use std::rc::Rc;
 
 use serde_json::{json, Value};
 
-use pie::tracker::event::EventTracker;
+use pie::tracker::event::{Event, EventTracker};
 use pie::tracker::CompositeTracker;
 use pie::trait_object::KeyObj;
 use pie::{Pie, ResourceState};
@@ -86,6 +86,63 @@ fn dump_store(pie: &Pie<Trk>) -> Value {
   json!({"tasks":tasks,"ress":ress})
 }
 
+fn with_task_key<R>(scn: &Scenario, t: i64, f: impl FnOnce(&dyn KeyObj) -> R) -> R {
+  let (ty, num) = (scn.ttype[(t - 1) as usize], scn.tnum[(t - 1) as usize]);
+  match ty {
+    0 => f(&Tk::<0>(num)),
+    1 => f(&Tk::<1>(num)),
+    2 => f(&Box::new(Tk::<0>(num))),
+    3 => f(&std::rc::Rc::new(Tk::<0>(num))),
+    _ => f(&std::sync::Arc::new(Tk::<0>(num))),
+  }
+}
+fn with_res_key<R>(scn: &Scenario, r: i64, f: impl FnOnce(&dyn KeyObj) -> R) -> R {
+  let (ty, num) = (scn.rtype[(r - 1) as usize], scn.rnum[(r - 1) as usize]);
+  match ty { 0 => f(&Res::<0>(num)), _ => f(&Res::<1>(num)) }
+}
+
+fn key_id(k: &dyn KeyObj, task: bool) -> i64 {
+  let num = parse_num(&format!("{:?}", k));
+  let ty = k.as_any().type_id();
+  (if task { task_id_of(ty, num) } else { res_id_of(ty, num) }).unwrap_or(0)
+}
+
+/// What the recording tracker stored for the last build and what its query helpers answer (C17-5).
+fn dump_event_tracker(et: &EventTracker, scn: &Scenario) -> Value {
+  let b = |x: bool| -> i64 { x as i64 };
+  let mut evs = Vec::new();
+  for (pos, e) in et.slice().iter().enumerate() {
+    let (k, x, i) = match e {
+      Event::BuildStart => ("build_start", 0, pos as i64),
+      Event::BuildEnd => ("build_end", 0, pos as i64),
+      Event::RequireStart(d) => ("require_start", key_id(d.task.as_ref(), true), d.index as i64),
+      Event::RequireEnd(d) => ("require_end", key_id(d.task.as_ref(), true), d.index as i64),
+      Event::ReadStart(d) => ("read_start", key_id(d.resource.as_ref(), false), d.index as i64),
+      Event::ReadEnd(d) => ("read_end", key_id(d.resource.as_ref(), false), d.index as i64),
+      Event::WriteStart(d) => ("write_start", key_id(d.resource.as_ref(), false), d.index as i64),
+      Event::WriteEnd(d) => ("write_end", key_id(d.resource.as_ref(), false), d.index as i64),
+      Event::ExecuteStart(d) => ("exec_start", key_id(d.task.as_ref(), true), d.index as i64),
+      Event::ExecuteEnd(d) => ("exec_end", key_id(d.task.as_ref(), true), d.index as i64),
+    };
+    let mt: Vec<Vec<i64>> = (1..=scn.nt as i64).map(|t| with_task_key(scn, t, |key| vec![
+      b(e.match_require_start(key).is_some()), b(e.match_require_end(key).is_some()), b(e.is_execute_of(key)),
+      b(e.match_execute_start(key).is_some()), b(e.match_execute_end(key).is_some())])).collect();
+    let mr: Vec<Vec<i64>> = (1..=scn.nr as i64).map(|r| with_res_key(scn, r, |key| vec![
+      b(e.match_read_start(key).is_some()), b(e.match_read_end(key).is_some()),
+      b(e.match_write_start(key).is_some()), b(e.match_write_end(key).is_some())])).collect();
+    evs.push(json!({"k":k,"x":x,"i":i,"h":[b(e.is_build_start()), b(e.is_build_end()), b(e.is_execute())],"mt":mt,"mr":mr}));
+  }
+  let idx = |o: Option<&usize>| -> i64 { o.map(|i| *i as i64).unwrap_or(-1) };
+  let rng = |o: Option<std::ops::RangeInclusive<usize>>| -> Vec<i64> { o.map(|r| vec![*r.start() as i64, *r.end() as i64]).unwrap_or(vec![-1, -1]) };
+  let qt: Vec<Value> = (1..=scn.nt as i64).map(|t| with_task_key(scn, t, |key| json!({
+    "any": b(et.any_execute_of(key)), "one": b(et.one_execute_of(key)), "req": rng(et.first_require_range(key)),
+    "exe": rng(et.first_execute_range(key)), "exe_end": idx(et.first_execute_end_index(key))}))).collect();
+  let qr: Vec<Value> = (1..=scn.nr as i64).map(|r| with_res_key(scn, r, |key| json!({
+    "rd": rng(et.first_read_range(key)), "rd_end": idx(et.first_read_end_index(key)),
+    "wr": rng(et.first_write_range(key)), "wr_end": idx(et.first_write_end_index(key))}))).collect();
+  json!({"evs":evs,"any_execute":b(et.any_execute()),"qt":qt,"qr":qr})
+}
+
 fn run_session(pie: &mut Pie<Trk>, scn: &Scenario, acts: &[Act], probe: bool) {
   emit(json!({"ev":"sess_start","probe":probe}));
   let mut nerr: i64 = -1;
@@ -134,7 +191,8 @@ fn run_session(pie: &mut Pie<Trk>, scn: &Scenario, acts: &[Act], probe: bool) {
   let res: Vec<i64> = (1..=scn.nr as i64).map(|r| get_res(pie, scn, r)).collect();
   let dump = dump_store(pie);
   let (d, c) = world::with(|w| (w.digest, w.count));
-  emit(json!({"ev":"sess_end","errs":nerr,"res":res,"dump":dump,
+  let evt = dump_event_tracker(&pie.tracker().1 .0, scn);
+  emit(json!({"ev":"sess_end","errs":nerr,"res":res,"dump":dump,"evt":evt,
     "trk_same": d[0] == d[1] && c[0] == c[1], "trk_n1": c[0], "trk_n2": c[1]}));
 }
 
